@@ -27,6 +27,7 @@ from ..engine.normal import Normalizer, Unsupported, first_diff, show
 from ..engine.mrspec import SHAPES
 from ..engine.flow import Flow
 from ..engine.typestate import FactDomain
+from ..engine.inline import Inliner
 from . import ikshape
 from .armstate import ArmChecker, ARM
 from .c02 import r024
@@ -35,11 +36,12 @@ FHP = 'basic_robotics.general.faser_high_performance'
 FIELD_ROLE = {'rot_tolerance': ikshape.ANG, 'pos_tolerance': ikshape.LIN}
 ARG_ROLES = {
     # kernel -> {param index: (role description, accepted argument sources)}
-    'IKinSpace': {0: ('space screws', ('self.screw_list', 'screw_list')),
-                  1: ('home tool pose', ('self._end_effector_home.gTM()', 'end_effector_home_c.gTM()', 'self._end_effector_home.TM')),
+    # (texts after inlining of single-definition locals; copies of the stored values are the same source)
+    'IKinSpace': {0: ('space screws', ('self.screw_list', 'self.screw_list.copy()')),
+                  1: ('home tool pose', ('self._end_effector_home.gTM()', 'self._end_effector_home.copy().gTM()', 'self._end_effector_home.TM')),
                   2: ('goal pose', None)},
-    'IKinSpaceConstrained': {0: ('space screws', ('self.screw_list', 'screw_list')),
-                             1: ('home tool pose', ('self._end_effector_home.gTM()', 'end_effector_home_c.gTM()')),
+    'IKinSpaceConstrained': {0: ('space screws', ('self.screw_list', 'self.screw_list.copy()')),
+                             1: ('home tool pose', ('self._end_effector_home.gTM()', 'self._end_effector_home.copy().gTM()')),
                              2: ('goal pose', None),
                              6: ('lower joint limits', ('self.joint_mins',)), 7: ('upper joint limits', ('self.joint_maxs',))},
 }
@@ -112,7 +114,7 @@ def check(model, rep):
             for pi, (role, accepted) in ARG_ROLES.get(k.name, {}).items():
                 if pi >= len(c.args):
                     continue
-                a = src(c.args[pi])
+                a = Inliner(fi).text(c.args[pi])
                 if accepted is None:
                     ok = fi.params[1] in a
                 else:
